@@ -661,6 +661,10 @@ impl Sim {
             xid: 0x1000_0000 + self.step_no,
             flags: if self.step_no % 3 == 0 { 0x8000 } else { 0 },
             ciaddr: ciaddr.unwrap_or(Ipv4Addr::UNSPECIFIED),
+            // every fifth message came through a relay agent (echoed in the reply, C13)
+            giaddr: if self.step_no % 5 == 2 { Ipv4Addr::new(10, 9, 0, 250) } else { Ipv4Addr::UNSPECIFIED },
+            hops: (self.step_no % 4) as u8,
+            secs: (self.step_no % 7) as u16,
             ..Default::default()
         };
         m.set_hw(&c.chaddr);
